@@ -208,7 +208,7 @@ def acyclicity_core(rep, prog):
     rep.check("TOPO.raises", len(rs) >= 1 and all(r.exctype == "ValueError" for r in rs), fwhere(f),
               "%d rejection sites, all ValueError" % len(rs), "rejections are not ValueError raises: %s" % [r.exctype for r in rs])
     rets = S.select("return", qname=f.qname)
-    rep.check("TOPO.returns", bool(rets) and all(not is_const(r.value) for r in rets), fwhere(f),
+    rep.check("TOPO.returns", bool(rets) and all(not is_const(r.value) and r.value not in (("list", ()), ("tuple", ())) for r in rets), fwhere(f),
               "returns the computed ordering", "returns a constant")
     leftover = kahn_rules(rep, prog, f, S)
     cycle_rules(rep, prog, f, leftover)
